@@ -236,7 +236,9 @@ def cut(interp, t, a, base='piece'):
                 refined = pieces[:j] + [x for x in (pa, pb)] + pieces[j + 1:]
                 decs.append(_dec(interp, refined, pieces))
                 return _cat(pieces[:j] + [pa]), _cat([pb] + pieces[j + 1:])
-    if st.ghost.get('__align__') and not st.no_fork:
+    if st.ghost.get('__align__') and not st.no_fork and not getattr(interp, 'assuming', 0):
+        # (not while a predicate is being assumed: what it says about a string that was cut differently before is
+        # just taken as a fact; a caller that needs the two views aligned cuts again later)
         vis = _visible_decomps(interp, t)
         if vis and len(vis[-1]) > 1:
             # The position is not located among the known pieces by lengths alone: case split on where it
@@ -399,6 +401,215 @@ def getitem(interp, s, idx):
     raise _pyraise(IndexError('string index out of range'))
 
 
+
+# ------------------------------------------------------------------------------ alignment with the known pieces
+# (opt-in per sidecar module: `M.string_alignment = True` sets st.ghost['__align__'])
+#
+# With alignment on, positions (cut), single-character searches (find / split / partition) and string
+# equalities are related to the pieces a string is already known to consist of -- by case split where
+# necessary -- instead of introducing a fresh, unrelated decomposition of the same string: word equations
+# between differently cut concatenations are what the solvers get lost in.
+
+def aligning(interp):
+    return bool(interp.st.ghost.get('__align__'))
+
+
+def _lit(p):
+    """python value of a z3 string literal"""
+    return p.as_string()
+
+
+def _is_piece(t):
+    """a string constant without structure (a variable): may be given a decomposition"""
+    return z3.is_const(t) and not z3.is_string_value(t) and t.decl().kind() == z3.Z3_OP_UNINTERPRETED
+
+
+def _is_atom(t):
+    """a string term that is neither a literal nor a concatenation: a variable, an application of an
+    uninterpreted function, an array element"""
+    return z3.is_string(t) and not z3.is_string_value(t) and not (
+        z3.is_app(t) and t.decl().kind() == z3.Z3_OP_SEQ_CONCAT)
+
+
+def count_term(interp, t, ch):
+    """number of occurrences of the single character ch in t, as an integer term; the facts that tie it to
+    the known pieces of t are added to the context"""
+    st = interp.st
+    if z3.is_string_value(t) and not _has_escape_val(t):
+        return z3.IntVal(_lit(t).count(ch))
+    f = count_fn(interp, ch)
+    _count_facts(interp, f, ch, t)
+    tn = norm(interp, t)
+    if not tn.eq(t):
+        st.assume(f(t) == f(tn))      # t == tn holds in the current context
+    fl = _flat_concat(tn)
+    if len(fl) > 1:
+        note_concat(interp, tn, fl, only=ch)
+    elif not z3.is_string_value(tn):
+        _count_facts(interp, f, ch, tn)
+    elif not _has_escape_val(tn):
+        st.assume(f(t) == _lit(tn).count(ch))
+    return f(t)
+
+
+def _count_app(interp, t):
+    """(string term, character) if t is an application of a counting function"""
+    if z3.is_app(t) and t.num_args() == 1 and z3.is_string(t.arg(0)) and t.decl().kind() == z3.Z3_OP_UNINTERPRETED:
+        for ch, f in _count_fns(interp).items():
+            if t.decl().eq(f):
+                return t.arg(0), ch
+    return None
+
+
+def _count_zero_fact(interp, t):
+    """(x, ch) if the fact t says  count_ch(x) == 0  in one of the forms the simplifier produces"""
+    if not z3.is_app(t):
+        return None
+    k = t.decl().kind()
+    if k in (z3.Z3_OP_LE, z3.Z3_OP_EQ) and t.num_args() == 2:
+        a, b = t.children()
+        if z3.is_int_value(b) and b.as_long() == 0:
+            return _count_app(interp, a)
+        if k == z3.Z3_OP_EQ and z3.is_int_value(a) and a.as_long() == 0:
+            return _count_app(interp, b)
+    if k == z3.Z3_OP_NOT:
+        c = t.arg(0)
+        if z3.is_app(c) and c.num_args() == 2:
+            a, b = c.children()
+            kk = c.decl().kind()
+            if kk == z3.Z3_OP_GT and z3.is_int_value(b) and b.as_long() == 0:
+                return _count_app(interp, a)
+            if kk == z3.Z3_OP_GE and z3.is_int_value(b) and b.as_long() == 1:
+                return _count_app(interp, a)
+            if kk == z3.Z3_OP_LT and z3.is_int_value(a) and a.as_long() == 0:
+                return _count_app(interp, b)
+            if kk == z3.Z3_OP_LE and z3.is_int_value(a) and a.as_long() == 1:
+                return _count_app(interp, b)
+            if kk == z3.Z3_OP_SEQ_CONTAINS and z3.is_string_value(b) and not _has_escape_val(b) and len(_lit(b)) == 1:
+                return a, _lit(b)
+    return None
+
+
+def _note_not_containing(interp, x, ch):
+    interp.st.ghost.setdefault('__notin__', []).append((_dec(interp, []), x, ch))
+
+
+def _known_not_containing(interp, p, ch):
+    """is it a recorded fact of the current context that the piece p does not contain the character ch?"""
+    for d, x, c in interp.st.ghost.get('__notin__', ()):
+        if c != ch or not _visible(interp, d):
+            continue
+        if x.eq(p) or any(q.eq(p) for q in _flat_concat(norm(interp, x))):
+            return True
+    return False
+
+
+def _locate_single(interp, t, ch, reverse):
+    """Find the first (last) occurrence of the single character ch along the known pieces of t.
+    A piece that is not known to be free of ch is asked (case split on its count); if it has one it is
+    itself decomposed around its first (last) occurrence, so the result stays aligned with the pieces.
+    Returns ('at', before, after) with t == before . ch . after, or ('absent',); None where no case split
+    is possible."""
+    st = interp.st
+    pieces = _flat_concat(norm(interp, t))
+    order = list(reversed(pieces)) if reverse else pieces
+    lit = z3.StringVal(ch)
+    for k, p in enumerate(order):
+        idx = len(pieces) - 1 - k if reverse else k
+        if z3.is_string_value(p):
+            if _has_escape_val(p):
+                return None
+            sv = _lit(p)
+            if ch not in sv:
+                continue
+            i = sv.rindex(ch) if reverse else sv.index(ch)
+            head, tail = z3.StringVal(sv[:i]), z3.StringVal(sv[i + 1:])
+            return ('at', _cat(pieces[:idx] + [head]), _cat([tail] + pieces[idx + 1:]))
+        if _known_not_containing(interp, p, ch):
+            continue
+        if st.no_fork:
+            return None
+        n = count_term(interp, p, ch)
+        if st.fork(wrap(n > 0)):
+            a = _fresh(interp, 'upto')
+            b = _fresh(interp, 'after')
+            st.assume(p == z3.Concat(a, lit, b))
+            _decomps(interp, p).append(_dec(interp, [a, lit, b]))
+            note_concat(interp, p, [a, lit, b])
+            free = b if reverse else a
+            st.assume(count_term(interp, free, ch) == 0)
+            _note_not_containing(interp, free, ch)
+            return ('at', _cat(pieces[:idx] + [a]), _cat([b] + pieces[idx + 1:]))
+        _note_not_containing(interp, p, ch)
+    return ('absent',)
+
+
+def learn(interp, t, depth=0):
+    """A fact has just been added to the context (path condition or current scope).  With alignment on, string
+    equalities x == u with x a variable are remembered as the decomposition x = pieces(u), so that later slices
+    of x (and of strings x is a piece of) share their pieces with u syntactically; `count(x) == 0` facts are
+    remembered for the piece-wise search."""
+    if depth > 4 or not z3.is_app(t) or not aligning(interp):
+        return
+    k = t.decl().kind()
+    if k == z3.Z3_OP_AND:
+        for c in t.children():
+            learn(interp, c, depth + 1)
+        return
+    cz = _count_zero_fact(interp, t)
+    if cz is not None:
+        _note_not_containing(interp, cz[0], cz[1])
+        return
+    if k != z3.Z3_OP_EQ:
+        return
+    a, b = t.children()
+    if not z3.is_string(a):
+        return
+    # x . common == pieces . common  says  x == pieces: strip what both sides share at their ends
+    pa = _flat_concat(norm(interp, a))
+    pb = _flat_concat(norm(interp, b))
+    st = interp.st
+
+    def empty(p):
+        return not z3.is_string_value(p) and st.must_hold_lengths(z3.Length(p) == 0)
+
+    while pa and pb:
+        if pa[-1].eq(pb[-1]):
+            pa.pop()
+            pb.pop()
+        elif empty(pa[-1]):
+            pa.pop()
+        elif empty(pb[-1]):
+            pb.pop()
+        else:
+            break
+    while pa and pb:
+        if pa[0].eq(pb[0]):
+            pa.pop(0)
+            pb.pop(0)
+        elif empty(pa[0]):
+            pa.pop(0)
+        elif empty(pb[0]):
+            pb.pop(0)
+        else:
+            break
+    for x, u in ((pa, pb), (pb, pa)):
+        if len(x) == 1 and _is_atom(x[0]) and not _visible_decomps(interp, x[0]):
+            if any(p.eq(x[0]) for p in u):
+                continue       # would be circular
+            _decomps(interp, x[0]).append(_dec(interp, u if u else [z3.StringVal('')]))
+            return
+    for x, u in ((a, b), (b, a)):
+        if _is_piece(x) and not x.eq(u):
+            if _visible_decomps(interp, x):
+                continue
+            un = norm(interp, u)
+            if any(p.eq(x) for p in _flat_concat(un)):
+                continue       # would be circular
+            _decomps(interp, x).append(_dec(interp, _flat_concat(un)))
+            return
+
+
 # ------------------------------------------------------------------------------ searching
 
 def _occurrence(interp, t, u, reverse, base):
@@ -469,6 +680,14 @@ def _find_uncached(interp, s, sub, start, reverse, raise_on_missing):
             if len(ds) > n_before and not (z3.is_string_value(pre) and pre.as_string() == ''):
                 _decomps(interp, t).append(_dec(interp, _flat_concat(pre) + list(ds[-1]), ds[-1]))
         return wrap(_s(r) + z3.Length(pre)) if not (isinstance(r, int) and r == -1) else -1
+    if aligning(interp) and z3.is_string_value(u) and not _has_escape_val(u) and len(_lit(u)) == 1:
+        loc = _locate_single(interp, t, _lit(u), reverse)
+        if loc is not None and loc[0] == 'at':
+            return wrap(z3.Length(loc[1]))
+        if loc is not None and loc[0] == 'absent':
+            if raise_on_missing:
+                raise _pyraise(ValueError('substring not found'))
+            return -1
     from . import charclass
     charclass.contains_link_pattern(interp, t, u)
     if not st.fork(wrap(z3.Contains(t, u))):
@@ -484,6 +703,12 @@ def _split_once(interp, s, sep, reverse=False):
     st = interp.st
     t = _s(s)
     u = _s(sep)
+    if aligning(interp) and z3.is_string_value(u) and not _has_escape_val(u) and len(_lit(u)) == 1:
+        loc = _locate_single(interp, t, _lit(u), reverse)
+        if loc is not None and loc[0] == 'at':
+            return True, wrap(loc[1]), wrap(loc[2])
+        if loc is not None and loc[0] == 'absent':
+            return False, wrap(t), None
     if not st.fork(wrap(z3.Contains(t, u))):
         return False, wrap(t), None
     p, m, q = _occurrence(interp, t, u, reverse, 'split')
@@ -509,6 +734,7 @@ def _strip(interp, s, chars, left, right):
         return charclass.strip_space(interp, s, left, right)
     if isinstance(chars, Sym) or not chars:
         raise Unsupported('strip with symbolic character set')
+    chars = ''.join(sorted(set(chars)))      # (the set of characters is what matters: one function per set)
     kind = ('l' if left else '') + ('r' if right else '')
     f = z3.Function('str.%sstrip[%r]' % ({'lr': '', 'l': 'l', 'r': 'r'}[kind], chars), z3.StringSort(),
                     z3.StringSort())
@@ -593,14 +819,38 @@ def call_method(interp, recv, name, args, kwargs):
         tn = norm(interp, t)
         if isinstance(x, tuple):
             return wrap(z3.Or(*[f(_sn(interp, y), tn) for y in x])) if x else False
+        if aligning(interp) and isinstance(x, str) and len(x) == 1 and not st.no_fork:
+            r = z3.simplify(f(z3.StringVal(x), tn))
+            if z3.is_true(r) or z3.is_false(r):
+                return z3.is_true(r)
+            # the first / last character as a piece of its own: ties the answer to the counting measure
+            if not st.fork(wrap(z3.Length(t) >= 1)):
+                return False
+            if name == 'startswith':
+                c, _rest = decompose(interp, t, [1, None], 'char')
+            else:
+                _rest, c = decompose(interp, t, [None, 1], 'char')
+            for ch, fn in _count_fns(interp).items():
+                _count_facts(interp, fn, ch, c)
+            return wrap(c == z3.StringVal(x))
         return wrap(f(_sn(interp, x), tn))
     if name in ('find', 'index', 'rfind', 'rindex'):
-        if len(args) > 2:
-            raise Unsupported('%s with end' % name)
-        if name.startswith('r') and len(args) > 1:
-            raise Unsupported('%s with start' % name)
-        return _find(interp, recv, args[0], args[1] if len(args) > 1 else None,
-                     name.startswith('r'), name.endswith('index'))
+        if len(args) > 3:
+            raise _pyraise(TypeError('%s() takes at most 3 arguments' % name))
+        start = args[1] if len(args) > 1 else None
+        end = args[2] if len(args) > 2 else None
+        if end is not None or (name.startswith('r') and start is not None):
+            # s.find(sub, a, b) searches the slice s[a:b] (an occurrence must lie inside it)
+            if start is None or (isinstance(start, int) and start == 0):
+                base = 0
+            else:
+                base = wrap(z3.simplify(_norm_index(start, z3.Length(t), interp)))
+            mid = getitem(interp, recv, slice(start, end, None))
+            r = _find(interp, mid, args[0], None, name.startswith('r'), name.endswith('index'))
+            if isinstance(r, int) and r == -1:
+                return -1
+            return r if (isinstance(base, int) and base == 0) else wrap(_s(r) + _s(base))
+        return _find(interp, recv, args[0], start, name.startswith('r'), name.endswith('index'))
     if name in ('split', 'rsplit'):
         sep = args[0] if args else kwargs.get('sep')
         maxsplit = args[1] if len(args) > 1 else kwargs.get('maxsplit', -1)
@@ -628,11 +878,16 @@ def call_method(interp, recv, name, args, kwargs):
         return _strip(interp, recv, chars, name != 'rstrip', name != 'lstrip')
     if name == 'count':
         sub = args[0]
-        if isinstance(sub, str) and len(sub) == 1 and len(args) == 1:
+        if isinstance(sub, str) and len(sub) == 1 and len(args) == 1 and not aligning(interp):
             f = count_fn(interp, sub)
             _count_facts(interp, f, sub, t)
             return wrap(f(t))
-        raise Unsupported('count of a non-single-character / with range')
+        if isinstance(sub, str) and len(sub) == 1 and len(args) <= 3:
+            if len(args) > 1:
+                # s.count(c, a, b) counts in the slice s[a:b]
+                t = _s(getitem(interp, recv, slice(args[1], args[2] if len(args) > 2 else None, None)))
+            return wrap(count_term(interp, t, sub))
+        raise Unsupported('count of a non-single-character')
     if name in ('isspace', 'isalnum', 'isdigit', 'isalpha', 'isidentifier', 'isupper', 'islower', 'isnumeric',
                 'isdecimal', 'isprintable'):
         return _upred(interp, name, recv)
@@ -889,7 +1144,8 @@ def forget_dead_pieces(interp):
     from: it is sound, and keeps the string solvers away from aligning unrelated decompositions."""
     st = interp.st
     pieces = st.ghost.get('__pieces__')
-    if not pieces or os.environ.get('PYVC_KEEP_DEAD_PIECES'):
+    if not pieces or os.environ.get('PYVC_KEEP_DEAD_PIECES') or aligning(interp):
+        # (with alignment the pieces are the vocabulary later cuts and searches are related to: kept)
         return
     live = set()
     seen_terms, seen_objs = set(), set()
@@ -962,3 +1218,6 @@ def forget_dead_pieces(interp):
     cc = st.ghost.get('__concats__')
     if cc:
         cc[:] = [(w, ps, sc) for (w, ps, sc) in cc if not dead_term(w) and not any(dead_term(p) for p in ps)]
+    ni = st.ghost.get('__notin__')
+    if ni:
+        ni[:] = [(d, x, c) for (d, x, c) in ni if not dead_term(x)]
